@@ -10,8 +10,8 @@ namespace DI.Gen
 
 open DI.Py
 
-/-- dataiter/aggregate.py: use_numba (sha256 of the function source: 7f39488fe8b5991d) -/
+/-- dataiter/aggregate.py: use_numba (sha256 of the function source: 3941755e55956d50) -/
 def aggregate_use_numba (truth : Term → Bool) : Out :=
-  Out.ret [] (Term.app "And" [(Term.sym "dataiter.USE_NUMBA"), (Term.app "Or" [(Term.app "np.issubdtype" [(Term.app ".dtype" [(Term.sym "x")]), (Term.sym "np.bool_")]), (Term.app "np.issubdtype" [(Term.app ".dtype" [(Term.sym "x")]), (Term.sym "np.datetime64")]), (Term.app "np.issubdtype" [(Term.app ".dtype" [(Term.sym "x")]), (Term.sym "np.floating")]), (Term.app "np.issubdtype" [(Term.app ".dtype" [(Term.sym "x")]), (Term.sym "np.integer")])])])
+  Out.ret [] (Term.app "And" [(Term.sym "dataiter.USE_NUMBA"), (Term.app "Or" [(Term.app "np.issubdtype" [(Term.app ".dtype" [(Term.sym "x")]), (Term.sym "np.bool_")]), (Term.app "np.issubdtype" [(Term.app ".dtype" [(Term.sym "x")]), (Term.sym "np.datetime64")]), (Term.app "np.issubdtype" [(Term.app ".dtype" [(Term.sym "x")]), (Term.sym "np.floating")]), (Term.app "np.issubdtype" [(Term.app ".dtype" [(Term.sym "x")]), (Term.sym "np.integer")])]), (Term.app "not" [(Term.app "np.issubdtype" [(Term.app ".dtype" [(Term.sym "x")]), (Term.sym "np.timedelta64")])])])
 
 end DI.Gen
